@@ -147,6 +147,8 @@ type DirDiscrepancy struct {
 	Missing []string // index entries without file
 	BadSize []string
 	BadBlob []string
+
+	extraSize map[string]int64 // length of each surplus file
 }
 
 func (d DirDiscrepancy) Empty() bool {
@@ -193,6 +195,10 @@ func CompareDir(c disk.Cache, deep bool) (DirDiscrepancy, disk.VerifSnap) {
 	for f := range files {
 		if _, ok := want[f]; !ok {
 			d.Extra = append(d.Extra, f)
+			if d.extraSize == nil {
+				d.extraSize = map[string]int64{}
+			}
+			d.extraSize[f] = files[f]
 		}
 	}
 	for p, e := range want {
@@ -211,6 +217,10 @@ func CompareDir(c disk.Cache, deep bool) (DirDiscrepancy, disk.VerifSnap) {
 		}
 		if pn.Key() != e.Key {
 			d.BadBlob = append(d.BadBlob, fmt.Sprintf("%s: name says key %s, index says %s", p, pn.Key(), e.Key))
+		}
+		if pn.Kind != "cas" && e.Size != e.SizeOnDisk {
+			// AC/RAW values are stored as they are: the recorded (logical) size is the length of the file
+			d.BadBlob = append(d.BadBlob, fmt.Sprintf("%s: %s entry with recorded size %d != on-disk %d", p, pn.Kind, e.Size, e.SizeOnDisk))
 		}
 		if pn.Kind == "cas" && !pn.Legacy {
 			if pn.LogicalSize != e.Size {
@@ -278,52 +288,129 @@ func CheckEntriesFound(c disk.Cache, snap disk.VerifSnap) []string {
 	return bad
 }
 
+// DirQuiescence configures CheckDirQuiescentOpts.
+type DirQuiescence struct {
+	Deep bool // parse every compressed CAS file with the independent reader
+	// LingeringWriters: goroutines of server handlers whose client already gave up may still create and remove a
+	// temporary file (an orphaned upload). Every surplus file is then judged by persistence only.
+	LingeringWriters bool
+	// Patience is how long a surplus file whose removal cannot be waited for deterministically (a zero-length file adds
+	// nothing to the queued-eviction byte count; a lingering writer) has to persist, seen in every listing, before
+	// it counts. Default 15 s.
+	Patience time.Duration
+}
+
 // CheckDirQuiescent is M-dir: must be called when the harness has no
 // operation in flight. Surplus files are tolerated only while the background
 // remover still has queued deletions; it polls (bounded) for the backlog to
 // drain and reports what persists. Verdict: "ok", "violated", or
 // "inconclusive" (deletions still queued when the watchdog expired).
 func CheckDirQuiescent(c disk.Cache, deep bool) (DirDiscrepancy, disk.VerifSnap, string) {
-	deadline := time.Now().Add(20 * time.Second)
-	var d DirDiscrepancy
-	var snap disk.VerifSnap
+	return CheckDirQuiescentOpts(c, DirQuiescence{Deep: deep})
+}
+
+func hardItems(d DirDiscrepancy) map[string]bool {
+	m := map[string]bool{}
+	for _, x := range d.Missing {
+		m["missing:"+x] = true
+	}
+	for _, x := range d.BadSize {
+		m["size:"+x] = true
+	}
+	for _, x := range d.BadBlob {
+		m["blob:"+x] = true
+	}
+	return m
+}
+
+// CheckDirQuiescentOpts: see CheckDirQuiescent. No verdict rests on a short sleep:
+//   - entry without file / wrong size / malformed blob: cannot be transient at quiescence; confirmed by a second
+//     evaluation that shows the same item again;
+//   - surplus file of non-zero length: the remover unlinks a file before it subtracts its bytes from the
+//     queued-eviction counter, so a listing taken after the counter was read as 0 cannot contain a file that is still
+//     waiting for the remover; confirmed by two more listings;
+//   - surplus file of zero length (adds nothing to that counter) or any surplus file while handlers may linger:
+//     persistent-state verdict - the same file has to be there in every listing for the whole Patience period.
+func CheckDirQuiescentOpts(c disk.Cache, o DirQuiescence) (DirDiscrepancy, disk.VerifSnap, string) {
+	deep := o.Deep
+	patience := o.Patience
+	if patience <= 0 {
+		patience = 15 * time.Second
+	}
+	start := time.Now()
+	backlogDeadline := start.Add(20 * time.Second)
+	firstSeen := map[string]time.Time{}
+	sleep := time.Millisecond
 	for {
-		d, snap = CompareDir(c, deep)
+		q0 := disk.VerifQueuedEvictions(c) // read BEFORE the listing
+		d, snap := CompareDir(c, deep)
 		if d.Empty() {
 			return d, snap, "ok"
 		}
-		// Only surplus files can be transient (pending background deletions).
-		if len(d.Missing)+len(d.BadSize)+len(d.BadBlob) > 0 {
-			// re-evaluate once to exclude a walk racing with the remover
+		if h1 := hardItems(d); len(h1) > 0 {
+			// re-evaluate to exclude a walk racing with the remover / a lingering writer: the same item must show again
 			time.Sleep(2 * time.Millisecond)
 			d2, snap2 := CompareDir(c, deep)
-			if len(d2.Missing)+len(d2.BadSize)+len(d2.BadBlob) > 0 {
-				return d2, snap2, "violated"
+			for x := range hardItems(d2) {
+				if h1[x] {
+					return d2, snap2, "violated"
+				}
+			}
+			if time.Now().After(backlogDeadline) {
+				return d2, snap2, "inconclusive"
 			}
 			continue
 		}
-		if snap.QueuedEvictions == 0 && disk.VerifQueuedEvictions(c) == 0 {
-			// Nothing queued by byte count; zero-length files may still be
-			// pending, so give the remover a short grace period.
+		// only surplus files
+		now := time.Now()
+		cur := map[string]bool{}
+		decidable := false // some surplus file of non-zero length that the remover cannot still be holding
+		for _, f := range d.Extra {
+			cur[f] = true
+			if _, ok := firstSeen[f]; !ok {
+				firstSeen[f] = now
+			}
+			if !o.LingeringWriters && d.extraSize[f] > 0 && q0 == 0 && snap.QueuedEvictions == 0 {
+				decidable = true
+			}
+		}
+		for f := range firstSeen {
+			if !cur[f] {
+				delete(firstSeen, f)
+			}
+		}
+		if decidable {
 			time.Sleep(5 * time.Millisecond)
 			d2, snap2 := CompareDir(c, deep)
 			if d2.Empty() {
 				return d2, snap2, "ok"
 			}
-			if snap2.QueuedEvictions == 0 {
-				time.Sleep(50 * time.Millisecond)
-				d3, snap3 := CompareDir(c, deep)
-				if d3.Empty() {
-					return d3, snap3, "ok"
-				}
-				if snap3.QueuedEvictions == 0 {
+			time.Sleep(50 * time.Millisecond)
+			d3, snap3 := CompareDir(c, deep)
+			if d3.Empty() {
+				return d3, snap3, "ok"
+			}
+			for _, f := range d3.Extra {
+				if cur[f] && d.extraSize[f] > 0 && d3.extraSize[f] > 0 && snap3.QueuedEvictions == 0 {
 					return d3, snap3, "violated"
 				}
 			}
 		}
-		if time.Now().After(deadline) {
-			return d, snap, "inconclusive"
+		if q0 != 0 || snap.QueuedEvictions != 0 {
+			// deletions are queued: any surplus file may be one of them; the persistence clock starts when the backlog is gone
+			clear(firstSeen)
+			if now.After(backlogDeadline) {
+				return d, snap, "inconclusive"
+			}
 		}
-		time.Sleep(time.Millisecond)
+		for f, t := range firstSeen {
+			if now.Sub(t) >= patience && cur[f] {
+				return d, snap, "violated"
+			}
+		}
+		time.Sleep(sleep)
+		if sleep < 50*time.Millisecond {
+			sleep *= 2
+		}
 	}
 }
